@@ -893,6 +893,17 @@ func main() {
 	if err := os.MkdirAll(out, 0o755); err != nil {
 		die(2, "%v", err)
 	}
+	// The source importer resolves the repository's own import paths (internal/jsonflags, internal/jsonopts, …) relative to
+	// the working directory: run inside the repository so that cross-package types are known (needed by scope.go).
+	if a, err := filepath.Abs(out); err == nil {
+		out = a
+	}
+	if a, err := filepath.Abs(repo); err == nil {
+		repo = a
+	}
+	if err := os.Chdir(repo); err != nil {
+		die(2, "%v", err)
+	}
 	flags := load(repo, "internal/jsonflags", "jsonflags")
 	wire := load(repo, "internal/jsonwire", "jsonwire")
 	text := load(repo, "jsontext", "jsontext")
@@ -969,6 +980,9 @@ func main() {
 	emitLits(&l, root, "", "appendFoldedName")
 	l.WriteString("\nend JsonV.Gen\n")
 	write(filepath.Join(out, "Lits.lean"), l.String())
+
+	write(filepath.Join(out, "Scope.lean"), emitScope(root, text, wire))             // scope.go (C19)
+	write(filepath.Join(out, "Reads.lean"), emitReads(flags, wire, text, root, repo)) // reads.go (C19)
 }
 
 func write(path, content string) {
